@@ -20,6 +20,8 @@ DECOR_QUICK = [(), ("Painted",), ("Painted", "Hap1"), ("Painted", "Hap2"), ("Tar
 DECOR_MATPAT = [(), ("Painted",), ("Painted", "MAT"), ("Painted", "PAT"), ("MAT",)]
 DECOR_FULL = DECOR_QUICK + [("Hap1",), ("Painted", "X"), ("Painted", "Hap1", "Target"), ("HAP2",), ("Painted", "Primary", "Hap1")]
 HAP_RE = re.compile(r"^([^_]+)_.+_\d+$")
+# Target on a scaffold that also carries a chromosome name tag (rank 2), for scripts of one or two Pretext scaffolds
+DECOR_NAMED_TARGET = [("Painted", "X", "Target")]
 KNOWN = {"Painted", "Target", "Primary", "Contaminant", "Cut", "FalseDuplicate", "Haplotig", "Singleton", "Unloc"}
 
 
@@ -303,7 +305,7 @@ class C09(Check):
                     for arr2 in variants:
                         ng = len(arr2)
                         matpat = inp[1][0].startswith("PAT_")
-                        for decs in itertools.product(DECOR_MATPAT if matpat else (decor if ng < 3 else DECOR_QUICK), repeat=ng):
+                        for decs in itertools.product(DECOR_MATPAT if matpat else (decor + DECOR_NAMED_TARGET if ng < 3 else DECOR_QUICK), repeat=ng):
                             for ptags in itertools.product(DESTRUCTIVE, repeat=np_):
                                 if not full and np_ == 3 and all(ptags):
                                     continue  # quick: at most two destructively tagged pieces
@@ -347,3 +349,4 @@ CHECK.rule += ' scaffold_1 may end in a 1-bp contig that no bait touches: a cont
 CHECK.rule += ' CLI family 4: untagged chromosomes plus one scaffold carrying a single haplotype tag, optional haplotig / contaminant, optional haplotype-prefixed scaffold absent from the map; at file level the component rows of all AGP files partition the input residues, and a whole-scaffold piece must be in the one file its tags name.'
 CHECK.rule += ' Haplotypes named in capitals without a digit: input PAT_SCAFFOLD_2 (+ MAT_SCAFFOLD_9 absent) with decorations {unpainted, Painted, Painted+MAT, Painted+PAT, MAT}.'
 CHECK.rule += ' Scaffold-level tags carried only by a first piece that is itself removal-tagged. History: every third case is remapped again on the input assembly object the previous case (same input, other script) already used, another third on an object that first went through the same script with Target added; the result must equal the fresh-input result.'
+CHECK.rule += ' Decoration Painted+X+Target (Target on a name-tagged chromosome) for scripts of one or two Pretext scaffolds.'
